@@ -72,6 +72,15 @@ CLAIMED = {
              "finishing in binary64, against get_dihedral, mean_curvature, tau, asphericity, iq and the rounded shapes for radii 0 and 2^-10..2^7 sizes.",
         design="§4 C11", technique="Coq proof (sum algebra over edge lists, acos identities) + model/implementation correspondence",
         note="Steiner polynomial is the specification (Minkowski-sum measure not proved); formulas hand-modelled (loops are outside the translator)."),
+    "C13": dict(
+        text="Theorems: the circum-ball linear system is equivalent to equidistance from every vertex; the in-ball system to tangency from inside; "
+             "B(C,r) lies in a unit-normal half-space iff n.C+d+r<=0 and touches it at equality (Cauchy-Schwarz), so the maximal centred bounded radius "
+             "is the least centre-plane distance; minimal centred bounding radius is the largest centre-vertex distance; an enclosing ball whose centre "
+             "is a convex combination of points on its boundary is minimal (miniball certificate); min/max-axis balls sandwich the ellipsoid. "
+             "Correspondence: exact circum solve (Cramer normal equations, exact residual) decides existence; every returned ball is checked against its "
+             "definition; miniball's output must carry the certificate; RuntimeError demanded exactly when no ball exists (margin-separated).",
+        design="§4 C13", technique="Coq proof (linear-algebra equivalences, weighted-sum argument, nra) + exact existence oracle + definition checks on implementation output",
+        note="miniball and lstsq are oracles; in-ball existence known by construction of generators; sizes O(1) (scale dependence of isclose(resids,0) is C09)."),
 }
 
 REASON_TODO = "check not built yet (work in progress this round)"
